@@ -161,191 +161,93 @@ def _model_of_test(test, enum):
     return None
 
 
+def model_dispatch(ctx):
+    """partial evaluator specialised to hyperbolic.Model"""
+    from ..dispatch import Dispatch
+    enum = model_enum(ctx)
+
+    def norm(x):
+        if x in enum.values():
+            return x
+        for k, val in enum.items():
+            if k.lower() == str(x).lower():
+                return val
+        return ALIAS5.get(str(x)[:5].lower(), str(x).lower())
+
+    def same(a, b):
+        na, nb = norm(a), norm(b)
+        return na == nb or ALIAS5.get(na[:5], na) == ALIAS5.get(nb[:5], nb)
+    return Dispatch(ctx.p, "Model", enum, same), enum
+
+
 def rule_d1(ctx):
     r = ctx.r
-    r.rule("D1", "every distinct value of hyperbolic.Model has an arm in the "
-                 "Point.coords / HyperbolicObject.coords dispatch; each arm "
-                 "returns a self.<model>_coords(...) call forwarding the data "
-                 "argument and **kwargs")
-    enum = model_enum(ctx)
+    r.rule("D1", "every distinct value of hyperbolic.Model reaches a handler "
+                 "in the Point.coords dispatch: Point.coords is partially "
+                 "evaluated with `model` bound to each member (if / elif "
+                 "chains, early returns, bound methods held in locals, "
+                 "helper methods returning an accessor, getattr, literal "
+                 "dispatch tables, delegation to HyperbolicObject.coords and "
+                 "its GeometryError fallback are followed); the specialised "
+                 "run must return self.<that model>_coords(...) forwarding "
+                 "the data argument and **kwargs")
+    disp, enum = model_dispatch(ctx)
     values = sorted(set(enum.values()))
     pc = ctx.p.get_function(HYP, "Point.coords")
     hc = ctx.p.get_function(HYP, "HyperbolicObject.coords")
     r.analysed(pc, hc)
-    # Point.coords must delegate to HyperbolicObject.coords
-    deleg = [n for n in ast.walk(pc.node) if isinstance(n, ast.Call)
-             and dotted(n.func) in ("HyperbolicObject.coords",
-                                    "super().coords")]
-    arms = {}
-    funcs = [pc] + ([hc] if deleg else [])
-    for f in funcs:
-        dataparam = f.params[2] if len(f.params) > 2 else None
-        for n in ast.walk(f.node):
-            if isinstance(n, ast.If):
-                v = _model_of_test(n.test, enum)
-                if v is None:
-                    continue
-                rets = [s for s in n.body if isinstance(s, ast.Return)]
-                if not rets:
-                    # single-exit form: `result = self.x_coords(..)` in the
-                    # arm and `return result` after the chain
-                    returned = {dotted(x.value) for x in ast.walk(f.node)
-                                if isinstance(x, ast.Return)
-                                and isinstance(x.value, ast.Name)}
-                    rets = [s for s in n.body if isinstance(s, ast.Assign)
-                            and len(s.targets) == 1
-                            and dotted(s.targets[0]) in returned]
-                arms.setdefault(v, []).append((f, n, rets, dataparam))
-    # table-driven dispatch: `for m, name in ((Model.X, "x_coords"), ...):
-    #     if model == m: return getattr(self, name)(data, **kwargs)`
-    table_arms = {}
-    dynamic = False
-    for f in funcs:
-        dataparam = f.params[2] if len(f.params) > 2 else None
-        modelparam = f.params[1] if len(f.params) > 1 else "model"
-        defs = single_defs(f.node)
-        for n in ast.walk(f.node):
-            if isinstance(n, ast.Call) and dotted(n.func) == "getattr":
-                dynamic = True
-            if not (isinstance(n, ast.For) and isinstance(n.target, ast.Tuple)
-                    and len(n.target.elts) == 2
-                    and all(isinstance(x, ast.Name) for x in n.target.elts)):
-                continue
-            seq = n.iter
-            if isinstance(seq, ast.Name) and seq.id in defs:
-                seq = defs[seq.id]
-            if isinstance(seq, ast.Call) and dotted(seq.func).endswith(
-                    ".items") and isinstance(seq.func.value, ast.Name) \
-                    and seq.func.value.id in defs:
-                seq = defs[seq.func.value.id]
-            pairs = None
-            if isinstance(seq, (ast.Tuple, ast.List)) and all(
-                    isinstance(x, ast.Tuple) and len(x.elts) == 2
-                    for x in seq.elts):
-                pairs = [(x.elts[0], x.elts[1]) for x in seq.elts]
-            elif isinstance(seq, ast.Dict):
-                pairs = list(zip(seq.keys, seq.values))
-            if not pairs:
-                continue
-            mvar, nvar = (x.id for x in n.target.elts)
-            # the body: `if model == mvar: return <getattr(self, nvar)>(...)`
-            ret = None
-            for st in ast.walk(n):
-                if isinstance(st, ast.If) and isinstance(st.test, ast.Compare) \
-                        and len(st.test.ops) == 1 \
-                        and isinstance(st.test.ops[0], ast.Eq) \
-                        and {dotted(st.test.left),
-                             dotted(st.test.comparators[0])} == {modelparam,
-                                                                 mvar}:
-                    bdefs = {}
-                    for b in st.body:
-                        if isinstance(b, ast.Assign) and len(b.targets) == 1 \
-                                and isinstance(b.targets[0], ast.Name):
-                            bdefs[b.targets[0].id] = b.value
-                        if isinstance(b, ast.Return) and isinstance(
-                                b.value, ast.Call):
-                            fn = b.value.func
-                            if isinstance(fn, ast.Name) and fn.id in bdefs:
-                                fn = bdefs[fn.id]
-                            if isinstance(fn, ast.Call) and dotted(
-                                    fn.func) == "getattr" \
-                                    and len(fn.args) == 2 \
-                                    and dotted(fn.args[0]) == "self" \
-                                    and dotted(fn.args[1]) == nvar:
-                                ret = b
-            if ret is None:
-                continue
-            for mexpr, nexpr in pairs:
-                v = _model_of_test(ast.Compare(
-                    left=ast.Name(id=modelparam, ctx=ast.Load()),
-                    ops=[ast.Eq()], comparators=[mexpr]), enum)
-                if v is None or not (isinstance(nexpr, ast.Constant)
-                                     and isinstance(nexpr.value, str)):
-                    continue
-                table_arms.setdefault(v, []).append(
-                    (f, ret, "self." + nexpr.value, dataparam))
-    if not arms and not table_arms:
-        raise AnalysisError("coords dispatch: no `if model == Model.X` arm "
-                            "recognised in Point.coords / "
-                            "HyperbolicObject.coords")
+    cls = ctx.p.get_class(HYP, "Point")
+    mparam = pc.params[1] if len(pc.params) > 1 else "model"
     for v in values:
-        if v not in arms and v in table_arms:
-            for f, ret, hname, dataparam in table_arms[v]:
-                call = ret.value
-                okname = hname.endswith("_coords") \
-                    and ALIAS5.get(hname[5:10]) == ALIAS5.get(v[:5])
-                fwd_data = any(dotted(a) == dataparam for a in call.args) \
-                    or any(dotted(k.value) == dataparam
-                           for k in call.keywords)
-                fwd_kw = any(k.arg is None for k in call.keywords)
-                if okname and fwd_data and fwd_kw:
-                    r.ok("D1", f"coords[{v}]", loc(f, ret), norm_stmt(ret),
-                         f"dispatch table row maps the model to {hname}; the "
-                         "call forwards data + **kwargs")
-                else:
-                    r.violation(
-                        "D1", f"{f.fq}|{v}|forward", loc(f, ret),
-                        norm_stmt(ret)[:160],
-                        f"dispatch table row for '{v}' names {hname}"
-                        + ("" if okname else " (not that model's accessor)")
-                        + ("" if fwd_data else "; the data argument is not "
-                           "forwarded")
-                        + ("" if fwd_kw else "; **kwargs is not forwarded"),
-                        instance=f"coords[{v}]")
+        inst = f"coords[{v}]"
+        out = disp.resolve(cls, "coords", {mparam: v})
+        if out is None:
+            r.note("D1", loc(pc, pc.node), inst,
+                   f"the dispatch for this value is written in a form the "
+                   f"partial evaluator does not follow ({disp.why}): not "
+                   "judged")
             continue
-        if v not in arms and dynamic:
-            r.note("D1", loc(pc, pc.node), f"coords[{v}]",
-                   "no `if model == Model.X` arm for this value, but the "
-                   "dispatch goes through getattr in a form the rule does "
-                   "not follow (not judged)")
-            continue
-        if v not in arms:
+        if out[0] == "raise":
             r.violation(
                 "D1", f"{pc.fq}|missing:{v}", loc(pc, pc.node),
                 "Point.coords",
-                f"model value '{v}' of hyperbolic.Model has no arm in the "
-                f"coords dispatch ({'delegation to HyperbolicObject.coords present' if deleg else 'Point.coords no longer delegates to HyperbolicObject.coords'}): "
-                f"Point(coords, model='{v}') / .coords('{v}') raises "
-                "GeometryError", instance=f"coords[{v}]")
+                f"with model = '{v}' the dispatch of Point.coords (and of "
+                "HyperbolicObject.coords behind it) reaches no handler and "
+                f"raises: Point(coords, model='{v}') / .coords('{v}') is a "
+                "GeometryError", instance=inst)
             continue
-        for f, n, rets, dataparam in arms[v]:
-            inst = f"coords[{v}]"
-            if len(rets) != 1 or not isinstance(rets[0].value, ast.Call):
-                if any(isinstance(x, ast.Call) and dotted(x.func).endswith(
-                        "_coords") for b in n.body for x in ast.walk(b)):
-                    r.note("D1", loc(f, n), norm_stmt(n)[:120],
-                           "arm calls a *_coords handler in a form the rule "
-                           "does not recognise (not judged)")
-                    continue
-                r.violation("D1", f"{f.fq}|{v}|shape", loc(f, n),
-                            norm_stmt(n)[:120],
-                            "arm does not hand the request to a "
-                            "self.<model>_coords(...) handler",
-                            instance=inst)
-                continue
-            call = rets[0].value
-            hname = dotted(call.func)
-            okname = hname.startswith("self.") and hname.endswith("_coords") \
-                and ALIAS5.get(hname[5:10]) == ALIAS5.get(v[:5])
-            fwd_data = any(dotted(a) == dataparam for a in call.args) or any(
-                dotted(k.value) == dataparam for k in call.keywords)
-            fwd_kw = any(k.arg is None for k in call.keywords)
-            if okname and fwd_data and fwd_kw:
-                r.ok("D1", inst, loc(f, rets[0]), norm_stmt(rets[0]),
-                     "handler matches the model and forwards data + **kwargs")
-            else:
-                why = []
-                if not okname:
-                    why.append(f"handler {hname} is not the '{v}' accessor")
-                if not fwd_data:
-                    why.append(f"the data argument `{dataparam}` is not "
-                               "forwarded (setting coordinates is silently "
-                               "ignored)")
-                if not fwd_kw:
-                    why.append("**kwargs is not forwarded")
-                r.violation("D1", f"{f.fq}|{v}|forward", loc(f, rets[0]),
-                            norm_stmt(rets[0])[:160], "; ".join(why),
-                            instance=inst)
+        if out[0] != "call":
+            r.violation(
+                "D1", f"{pc.fq}|{v}|shape", loc(pc, pc.node), "Point.coords",
+                f"with model = '{v}' Point.coords returns "
+                f"{'None' if out[1] == 'none' else 'a bound method'} "
+                "instead of the coordinates computed by the handler",
+                instance=inst)
+            continue
+        _, hname, call, fn = out
+        f = next((g for g in ctx.p.all_functions if g.node is fn.node), pc) \
+            if hasattr(fn, "node") else pc
+        dataparam = f.params[2] if len(f.params) > 2 else None
+        okname = hname.endswith("_coords") \
+            and ALIAS5.get(hname[:5]) == ALIAS5.get(v[:5])
+        fwd_data = any(dotted(a) == dataparam for a in call.args) or any(
+            dotted(k.value) == dataparam for k in call.keywords)
+        fwd_kw = any(k.arg is None for k in call.keywords)
+        if okname and fwd_data and fwd_kw:
+            r.ok("D1", inst, loc(f, call), dotted(call)[:100],
+                 f"reaches self.{hname} and forwards data + **kwargs")
+        else:
+            why = []
+            if not okname:
+                why.append(f"handler self.{hname} is not the '{v}' accessor")
+            if not fwd_data:
+                why.append(f"the data argument `{dataparam}` is not "
+                           "forwarded (setting coordinates is silently "
+                           "ignored)")
+            if not fwd_kw:
+                why.append("**kwargs is not forwarded")
+            r.violation("D1", f"{f.fq}|{v}|forward", loc(f, call),
+                        dotted(call)[:160], "; ".join(why), instance=inst)
     return enum
 
 
